@@ -82,6 +82,36 @@ def check(repo: Repo, rep: Report) -> None:
     rep.ob("D2-default-equality", dc, f"default_comparer: `{' ; '.join(short(n) for n in cmps) or '?'}`", ok,
            "the default comparer is not exactly `x == y`: distinct / distinct_until_changed / contains / sequence_equal disagree with list "
            "semantics for elements whose == is not implied by the extra test (an identity shortcut drops a recurring NaN object)")
+    # distinct: "seen before" is decided by the comparer over every key seen so far -- never by hash / == of the keys themselves
+    # (a comparer coarser than == , or unhashable keys, must work as they do for the list computation)
+    rep.rule("D3-seen-by-comparer", "distinct: membership in the seen-set is decided by the comparer only (no hash(), no `in`, no set / dict of keys)", floor=2)
+    dm = repo.module("reactivex/operators/_distinct.py")
+    cmp_loops = 0
+    for f_ in dm.root.walk():
+        if not f_.is_func:
+            continue
+        for n_ in f_.direct_nodes():
+            if isinstance(n_, ast.For) and any(isinstance(c_, ast.Call) and isinstance(c_.func, (ast.Name, ast.Attribute)) and "comparer" in u(c_.func) for c_ in ast.walk(n_)):
+                cmp_loops += 1
+    rep.ob("D3-seen-by-comparer", dm.root, f"{cmp_loops} loop(s) apply the comparer to every key seen so far", cmp_loops >= 1,
+           "distinct no longer compares a new key with every key seen so far through the comparer")
+    banned = []
+    for f_ in dm.root.walk():
+        if not (f_.is_func or f_.is_class):
+            continue
+        for n_ in (f_.direct_nodes() if f_.is_func else []):
+            if isinstance(n_, ast.Call) and isinstance(n_.func, ast.Name) and n_.func.id in ("hash", "set", "dict", "frozenset"):
+                banned.append((f_, n_, f"{n_.func.id}(...)"))
+            elif isinstance(n_, (ast.Set, ast.SetComp, ast.Dict, ast.DictComp)):
+                banned.append((f_, n_, "a set / dict"))
+            elif isinstance(n_, ast.Compare) and any(isinstance(o_, (ast.In, ast.NotIn)) for o_ in n_.ops):
+                banned.append((f_, n_, "an `in` test"))
+    for f_, n_, what in banned:
+        rep.ob("D3-seen-by-comparer", f_, f"`{short(n_, 50)}`", False,
+               f"distinct uses {what} (`{short(n_, 50)}`): keys are then matched by their hash / == instead of the comparer — a comparer coarser "
+               f"than == (case-insensitive, modulo) lets duplicates through, and unhashable keys turn the sequence into a TypeError")
+    if not banned:
+        rep.ob("D3-seen-by-comparer", dm.root, "no hash / set / dict / `in` over keys in _distinct.py", True)
     rep.rule("D1-key-iff-emitted", "distinct_until_changed: the remembered key is replaced exactly when an element is emitted", floor=1)
     for key in OPS:
         got = TC.check_operator(repo, rep, "K1-signature", key,
